@@ -35,7 +35,10 @@ package parse
 //@   requires w == 2 || w == 4 || w == 8
 //@   requires 0 <= r
 //@   loop 1 unroll 8
-//@   ensures [digits-accepted] ok
+//   (stated per width: three small goals are decided in a fraction of the time of the joint one)
+//@   ensures [digits-accepted-x] w == 2 ==> ok
+//@   ensures [digits-accepted-u] w == 4 ==> ok
+//@   ensures [digits-accepted-U] w == 8 ==> ok
 //@   ensures [x-escape] w == 2 && r < 256 ==> back == r
 //@   ensures [u-escape] w == 4 && r <= 65535 ==> back == r
 //@   ensures [U-escape] w == 8 ==> back == r
